@@ -70,6 +70,71 @@ def variants():
     return out
 
 
+def relations_by_pysmiles(smiles):
+    """{frozenset of the two ligand elements: 'cis'|'trans'} for halogen ligand pairs"""
+    import pysmiles
+    g = pysmiles.read_smiles(smiles, explicit_hydrogen=True)
+    out = {}
+    for n, d in g.nodes(data=True):
+        for entry in d.get('ez_isomer', []) or []:
+            a, b = g.nodes[entry[0]]['element'], g.nodes[entry[3]]['element']
+            if a in ('F', 'Cl', 'Br', 'I') and b in ('F', 'Cl', 'Br', 'I'):
+                out[frozenset((a, b))] = entry[4]
+    return out
+
+
+DIENE_LEFT = ('first', 'branch', 'chain-branch')
+
+
+def diene_text(lf, marks, cuts=(), kind='$'):
+    """two stereo double bonds joined by a C-C linker: <left form with F> = C(/Cl)C | C C(/Br)=C/I ;
+    marks = (t1, t2, t3, t4); cuts subset of {'db1', 'linker', 'db2'}; returns list of fragment texts + bonds"""
+    t1, t2, t3, t4 = marks
+    lab = iter('abc')
+
+    def pair():
+        L = next(lab)
+        return ('[$%s]' % L, '[$%s]' % L) if kind == '$' else ('[>%s]' % L, '[<%s]' % L)
+    frs = ['']
+    bonds = []
+
+    def cut_here(sym=''):
+        d1, d2 = pair()
+        frs[-1] += sym + d1
+        frs.append(d2 + sym)
+        bonds.append((len(frs) - 2, len(frs) - 1))
+    frs[-1] += LEFT[lf][0].format(t=t1)
+    if 'db1' in cuts:
+        cut_here('=')
+    else:
+        frs[-1] += '='
+    frs[-1] += 'C(%sCl)C' % t2
+    if 'linker' in cuts:
+        cut_here('')
+    frs[-1] += 'CC(%sBr)' % t3
+    if 'db2' in cuts:
+        cut_here('=')
+    else:
+        frs[-1] += '='
+    frs[-1] += 'C%sI' % t4
+    return frs, bonds
+
+
+def diene_variants():
+    out = []
+    for lf in DIENE_LEFT:
+        for marks in itertools.product(TOK, repeat=4):
+            text = diene_text(lf, marks)[0][0]
+            try:
+                rel = relations_by_pysmiles(text)
+            except Exception:
+                continue
+            r1, r2 = rel.get(frozenset(('F', 'Cl'))), rel.get(frozenset(('Br', 'I')))
+            if r1 and r2:
+                out.append((lf, marks, r1, r2))
+    return out
+
+
 def fragments(lf, rf, tl, tr, cut, kind):
     """list of fragment texts in written order, and the list of (i, j) fragment bonds with order"""
     d1, d2 = ('[$a]', '[$a]') if kind == '$' else ('[>a]', '[<a]')
@@ -135,10 +200,14 @@ def plan(tier, seed):
         tasks.append({'space': 'double-bond', 'variants': vs[i:i + 4]})
     for name in CENTRES:
         tasks.append({'space': 'stereocentre', 'centre': name})
-    # seed slice: a second, unrelated stereo double bond in the same molecule (diene), one seed-chosen form pair
+    # two stereo double bonds in one molecule
+    dv = diene_variants()
+    for i in range(0, len(dv), 6):
+        tasks.append({'space': 'two-double-bonds', 'dienes': dv[i:i + 6], 'full_orders': tier != 'quick'})
+    # seed slice: one seed-chosen form pair with every order of three fragments (cut at the double bond and on the right)
     lf = sorted(LEFT)[seed % len(LEFT)]
     rf = sorted(RIGHT)[(seed // 4) % len(RIGHT)]
-    tasks.append({'space': 'seed-slice', 'variants': [v for v in vs if v[0] == lf and v[1] == rf], 'diene': True})
+    tasks.append({'space': 'seed-slice', 'variants': [v for v in vs if v[0] == lf and v[1] == rf]})
     return tasks
 
 
@@ -162,6 +231,24 @@ def run_task(task, R):
                         R.record(inp, evaluate(inp))
         R.add_explorer(ex)
         return
+    if 'dienes' in task:
+        for lf, marks, r1, r2 in task['dienes']:
+            for r in range(0, 4):
+                for cuts in itertools.combinations(('db1', 'linker', 'db2'), r):
+                    n = len(cuts) + 1
+                    perms = list(itertools.permutations(range(n)))
+                    if not task['full_orders'] and n == 4:
+                        perms = perms[::5]
+                    for order in perms:
+                        for kind in ('$', '>'):
+                            ex.states += 1
+                            ex.transitions += 1
+                            inp = {'family': 'diene', 'lf': lf, 'marks': list(marks), 'rel': [r1, r2], 'cuts': list(cuts),
+                                   'cut': 'db' if ('db1' in cuts or 'db2' in cuts) else ('elsewhere' if cuts else 'none'),
+                                   'order': order, 'kind': kind}
+                            R.record(inp, evaluate(inp))
+        R.add_explorer(ex)
+        return
     for lf, rf, rel, tl, tr in task['variants']:
         for cut in CUTS:
             for kind in ('$', '>'):
@@ -174,17 +261,17 @@ def run_task(task, R):
                         ex.states += 1
                         ex.transitions += 1
                         inp = {'family': 'db', 'lf': lf, 'rf': rf, 'rel': rel, 'tl': tl, 'tr': tr, 'cut': cut, 'kind': kind,
-                               'order': order, 'deforder': deforder, 'diene': bool(task.get('diene'))}
+                               'order': order, 'deforder': deforder}
                         R.record(inp, evaluate(inp))
     R.add_explorer(ex)
 
 
 def build_db(inp):
-    frs, bonds = fragments(inp['lf'], inp['rf'], inp['tl'], inp['tr'], inp['cut'], inp['kind'])
-    if inp.get('diene'):
-        # a second stereo double bond far from the first: Br/C=C/ prefix is not possible without touching the
-        # first one, so it is appended as an own fragment pair joined by a single bond to the last carbon
-        pass
+    if inp['family'] == 'diene':
+        frs, b2 = diene_text(inp['lf'], inp['marks'], inp['cuts'], inp['kind'])
+        bonds = [(a, b, 1) for a, b in b2]
+    else:
+        frs, bonds = fragments(inp['lf'], inp['rf'], inp['tl'], inp['tr'], inp['cut'], inp['kind'])
     order = inp['order']
     posn = {f: i for i, f in enumerate(order)}
     n = len(frs)
@@ -231,6 +318,8 @@ def evaluate(inp):
         return evaluate_centre(inp)
     s = build_db(inp)
     nontrivial = inp['cut'] != 'none'
+    if inp['family'] == 'diene':
+        return evaluate_diene(inp, s, nontrivial)
     try:
         cg, g = MoleculeResolver.from_string(s).resolve_all()
     except Exception as e:
@@ -252,6 +341,30 @@ def evaluate(inp):
     if rels != {inp['rel']}:
         return bad('relation-flipped', inp['rel'], {'string': s, 'got': sorted(rels)}, nontrivial=nontrivial)
     return Verdict(nontrivial=nontrivial, outcome='%s/%s/%s' % (inp['cut'], inp['rel'], len(cg)))
+
+
+def evaluate_diene(inp, s, nontrivial):
+    from cgsmiles import MoleculeResolver
+    want = {frozenset(('F', 'Cl')): inp['rel'][0], frozenset(('Br', 'I')): inp['rel'][1]}
+    try:
+        cg, g = MoleculeResolver.from_string(s).resolve_all()
+    except Exception as e:
+        return bad('raises:' + type(e).__name__, inp['rel'], {'string': s, 'error': repr(e)[:150]}, nontrivial=nontrivial)
+    r = check_paths(g)
+    if r:
+        return bad(r[0], inp['rel'], dict(r[1], string=s), nontrivial=nontrivial)
+    got = {}
+    for n, d in g.nodes(data=True):
+        for entry in d.get('ez_isomer', []) or []:
+            a, b = g.nodes[entry[0]].get('element'), g.nodes[entry[3]].get('element')
+            if frozenset((a, b)) in want:
+                got.setdefault(frozenset((a, b)), set()).add(entry[4])
+    for k, rel in want.items():
+        if k not in got:
+            return bad('relation-lost', inp['rel'], {'string': s, 'pair': sorted(k)}, nontrivial=nontrivial)
+        if got[k] != {rel}:
+            return bad('relation-flipped', inp['rel'], {'string': s, 'pair': sorted(k), 'got': sorted(got[k])}, nontrivial=nontrivial)
+    return Verdict(nontrivial=nontrivial, outcome='diene/%s/%s/%d' % (inp['rel'][0], inp['rel'][1], len(cg)))
 
 
 def evaluate_centre(inp):
@@ -372,7 +485,7 @@ def evaluate_centre(inp):
 def classify(viol, finding):
     sig = finding['signature']
     inp = viol['input']
-    if inp.get('family') != 'db' or viol['cls'] not in sig['cls_in']:
+    if inp.get('family') not in ('db', 'diene') or viol['cls'] not in sig['cls_in']:
         return False
     if inp['cut'] not in sig['cuts']:
         return False
